@@ -27,6 +27,7 @@ impl<K: KeyV> HashSet<K> {
     #[verifier::external_body] pub fn new() -> (r: Self) ensures r@ == Set::<K::KV>::empty() { unimplemented!() }
     #[verifier::external_body] pub fn insert(&mut self, k: K) -> (b: bool) ensures final(self)@ == old(self)@.insert(k.kv()), b == !old(self)@.contains(k.kv()) { unimplemented!() }
     #[verifier::external_body] pub fn contains<Q: KeyV<KV = K::KV> + ?Sized>(&self, k: &Q) -> (r: bool) ensures r == self@.contains(k.kv()) { unimplemented!() }
+    #[verifier::external_body] pub fn remove<Q: KeyV<KV = K::KV> + ?Sized>(&mut self, k: &Q) -> (b: bool) ensures final(self)@ == old(self)@.remove(k.kv()), b == old(self)@.contains(k.kv()) { unimplemented!() }
     #[verifier::external_body] pub fn is_empty(&self) -> (r: bool) ensures r == (self@ =~= Set::<K::KV>::empty()) { unimplemented!() }
     #[verifier::external_body] pub fn len(&self) -> (r: usize) ensures self@.finite() ==> r == self@.len() { unimplemented!() }
 }
